@@ -427,10 +427,14 @@ func checkC12(w *World, r *Report) {
 		pr := w.EnumPaths(fr, EnumOpts{})
 		okF := false
 		n := 0
+		seenOS := map[ssa.Instruction]bool{}
 		for _, p := range pr.Paths {
 			for _, e := range p.Effects {
 				if e.Kind == "call" && strings.HasPrefix(e.Target, "os.") {
-					n++
+					if !seenOS[e.In] { // (one call site, however many paths pass it)
+						seenOS[e.In] = true
+						n++
+					}
 					if e.Target == "os.RemoveAll" && (e.Val == "path.Join([recv.path,arg0])" || len(callCommonOf(e.In).Args) == 1 && w.APThrough(callCommonOf(e.In).Args[0]) == "path.Join([recv.path,arg0])") {
 						okF = true
 					}
